@@ -144,6 +144,9 @@ type visitor struct {
 // rich is set while a "+full" target is walked, keepLits while a "+args" target is walked
 var rich, keepLits bool
 
+// digestMode is set while digest.go walks a function for a source tie
+var digestMode bool
+
 // cond renders a condition with its operators (decision logic)
 func cond(e ast.Expr) string {
 	switch x := e.(type) {
@@ -154,6 +157,12 @@ func cond(e ast.Expr) string {
 	case *ast.ParenExpr:
 		return cond(x.X)
 	case *ast.CallExpr:
+		if digestMode {
+			// error texts and formatted messages are not part of a source tie
+			if full := strings.Split(render(x.Fun), "."); len(full) >= 2 && skipPkg[full[0]] {
+				return render(x.Fun) + "(…)"
+			}
+		}
 		var as []string
 		for _, a := range x.Args {
 			as = append(as, cond(a))
@@ -483,5 +492,6 @@ func main() {
 			os.Exit(1)
 		}
 	}
+	writeTies(repo, out)
 	fmt.Println("astfacts: ok")
 }
